@@ -49,12 +49,14 @@ var c20Templates = []struct{ name, code string }{
 	{"switch", "r = 0; switch %s {\ncase 5: r = 1\ncase \"ab\": r = 2\ncase nil: r = 3\ndefault: r = 9\n}"},
 	{"case", "r = 0; switch 5 {\ncase %s: r = 1\ndefault: r = 9\n}"},
 	{"if", "r = 0; if %s { r = 1 } else { r = 2 }"}, {"loopcond", "r = 0; for %s { r = r + 1; if r > 2 { break } }"},
+	{"loopcond-paren", "r = 0; for (%s) { r = r + 1; if r > 2 { break } }"}, // `for {"k": v}.k {` does not parse: the brace opens the loop body
 	{"ternary", "r = (%s ? 1 : 2) ?? \"E\""}, {"coalesce", "r = (%s ?? 1)"},
 	{"throw", "r = 0; try { throw %s } catch e { r = \"thrown\" }"},
 	{"assign-index", "t = %s; r = \"ok\"; try { t[0] = 9; r = t } catch e { r = \"E\" }"},
 	{"assign-member", "t = %s; r = \"ok\"; try { t.z = 9; r = t } catch e { r = \"E\" }"},
 	{"delete", "t = %s; r = \"ok\"; try { delete(t, \"k\"); r = t } catch e { r = \"E\" }"},
-	{"defer", "r = \"ok\"; func() { defer %s(1) }() ?? (r = \"E\")"},
+	{"defer", "r = \"ok\"; try { func() { defer %s(1) }() } catch e { r = \"E\" }"},
+	{"defer-arg", "r = 0; func() { defer func(a) { r = [a] }(%s) }(); r"}, {"defer-go-arg", "r = 0; func() { defer probe(%s) }(); r"},
 	{"var", "var q = %s; r = q"}, {"multi", "q, w = (%s); r = [q, w ?? \"undef\"]"},
 	{"return", "r = func() { return %s, 1 }()"}, {"arg-go", "r = probe(%s)"}, {"arg2", "r = probe2(1, %s)"},
 	{"var-go", "r = hvar(1, %s)"},
@@ -197,6 +199,17 @@ func c20Programs(maxLen int, sample *Rand, limit int) []c20Prog {
 					names = append(names, c20Hops[h].name)
 				}
 				out = append(out, c20Prog{base + fmt.Sprintf(t.code, x) + "\nr", []string{t.name, v.name, strings.Join(names, ">")}})
+			}
+			// the operand reaches the operation under a name bound by var / as a parameter (these bind the value as it
+			// comes, without the unwrapping a plain assignment does)
+			for h := -1; h < len(c20Hops); h++ {
+				x, hn := "v", "var"
+				if h >= 0 {
+					x, hn = c20Hops[h].wrap("v"), c20Hops[h].name
+				}
+				code := fmt.Sprintf(t.code, "q")
+				out = append(out, c20Prog{base + "var q = " + x + "\n" + code + "\nr", []string{t.name, v.name, hn + ">bind-var"}})
+				out = append(out, c20Prog{base + "r = nil\nfunc(q) {\n" + code + "\n}(" + x + ")\nr", []string{t.name, v.name, hn + ">bind-param"}})
 			}
 		}
 	}
